@@ -469,12 +469,36 @@ def hir_mir_option_reads(ctx):
     return r
 
 
+def r14_6(ctx):
+    r = Rule("R14.6", "the transformOn helper is requested only where `options.transform_on` is known to hold",
+             "`a && b || c` lets `nativeOn` through with the option off")
+    from .hirflow import HirIndex
+    n = 0
+    for hb in ctx.facts.hir:
+        if hb["crate"] != VISITOR_CRATE or hb.get("mac"):
+            continue
+        idx = None
+        for x in walk(hb["body"]):
+            if x.get("k") == "MethodCall" and x["method"] in ("get_or_insert_with", "get_or_insert", "insert", "replace") and \
+                    (field_path(strip_transparent(x["recv"])) or "") == "self.transform_on_helper":
+                idx = idx or HirIndex(hb)
+                n += 1
+                r.saw(hb["path"])
+                facts = idx.known_true(x)
+                ok = any((not isinstance(f, tuple)) and field_path(strip_transparent(f)) == "self.options.transform_on" for f in facts)
+                from .hirtext import expr_str
+                r.ob("%s: helper requested under options.transform_on" % hb["name"], ok, C.mloc(hb, x),
+                     "known true here: %s" % [("!" if isinstance(f, tuple) else "") + expr_str(f[1] if isinstance(f, tuple) else f)[:60] for f in facts][:4])
+    r.ob("requests of the transformOn helper examined", n > 0, "-", "%d site(s)" % n)
+    return r
+
+
 def rules(ctx):
     from . import c12, c10
     from ..engine import only
     from . import c01
     from . import c09
-    out = [r14_1, r14_2, r14_3, r14_4, r14_5, c12.r12_1, c09.r09_5,
+    out = [r14_1, r14_2, r14_3, r14_4, r14_5, r14_6, c12.r12_1, c09.r09_5,
            only(c01.r01_1, lambda k: k.startswith("component predicate") or "custom" in k.lower(), "customElementPatterns is matched against the whole tag name of plain / namespaced tags only")]
     if ctx.tier == "thorough":
         out.append(hir_mir_option_reads)
